@@ -320,6 +320,7 @@ Inductive win_noisy : bool -> list byte -> list byte -> list byte -> Prop :=
     win_noisy false (acc ++ [c]) e s ->
     win_noisy stale acc (c :: e) (render n ++ c :: s)
 | wn_reprint stale acc0 c n e s :
+    proto_letter c = true ->
     noise_ok n = true -> has_home n = false -> has_move n = true ->
     has_nl n || stale = true ->
     win_noisy true (acc0 ++ [c]) e s ->
